@@ -47,10 +47,24 @@ theorem less_def (a b : Item) :
   simp [Int.ofNat_lt]
 
 /-- The regenerated due test, spelled out. -/
-theorem isDue_def (now : Int) (it : Item) : isDue now it = decide (it.next + it.off ≤ now) := by
-  have h : isDue now it = decide (0 + it.next + it.off ≤ now) := rfl
+theorem isDue_def (now : Int) (it : Item) : isDue now it = decide (it.next + secUp it.off ≤ now) := by
+  have h : isDue now it = decide (0 + it.next + secUp it.off ≤ now) := rfl
   rw [h]
   simp
+
+/-! ### the whole-second offset of an item -/
+
+/-- Rounding the offset to whole seconds never makes it smaller: an item that is due by its whole-second `Offset`
+is due by the exact offset. -/
+theorem le_secUp (o : Int) : o ≤ secUp o * 1000 := by
+  unfold secUp early
+  have h1 := Int.mul_tdiv_add_tmod o 1000
+  have h2 := Int.tmod_lt_of_pos o (by decide : (0 : Int) < 1000)
+  split <;> omega
+
+/-- `Item.runAt()`: `when - roundedUp` is next plus the whole seconds (truncated toward zero) of the offset. -/
+theorem secUp_sub_early (o : Int) : secUp o - early o = o.tdiv 1000 := by
+  unfold secUp; omega
 
 
 theorem same_iff (a b : Item) : same a b = true ↔ a.whn = b.whn ∧ a.id = b.id := by
